@@ -208,6 +208,31 @@ func ruleStoreContracts(r *Run) {
 			if len(ops) == 0 {
 				continue
 			}
+			// presence is decided and the key deleted under one exclusive hold of the store's lock: what Delete reports
+			// is what it removed (two callers cannot both report "deleted" for one component)
+			if okDel {
+				held := r.locksAlong(path, lockset{})
+				first := -1
+				for j := 0; j < ops[0].Idx; j++ {
+					ev := path.Events[j]
+					if ev.Kind == EvAssign && len(ev.Rhs) == 1 {
+						if ix, ok := ast.Unparen(ev.Rhs[0]).(*ast.IndexExpr); ok && strings.HasPrefix(r.P.Canon(ev.Fn, ix), "recv.entityComponents[") && first < 0 {
+							first = j
+						}
+					}
+				}
+				one := first >= 0
+				for j := first; one && j <= ops[0].Idx; j++ {
+					w := false
+					for k, mode := range held[j] {
+						if strings.HasPrefix(k, "EntityComponentStore.") && mode == "W" {
+							w = true
+						}
+					}
+					one = w
+				}
+				r.CheckT("S-Delete", fn.Name+":one-critical-section", one, fn.Body.Pos(), path, "the lookup that decides what Delete reports and the delete itself happen under one exclusive hold of the store's lock")
+			}
 			// the presence test precedes the delete
 			if okDel {
 				before := false
